@@ -8,6 +8,7 @@ import (
 	"net"
 	"net/http"
 	"runtime"
+	"sync"
 
 	"github.com/google/martian/v3/zzverif/vf"
 )
@@ -69,6 +70,7 @@ type zzhookConn struct {
 	readPt  []int // progress point represented by the k-th Read
 	reads   int
 	wrotePt bool
+	closeMu sync.Mutex
 }
 
 func (c *zzhookConn) Read(p []byte) (int, error) {
@@ -85,6 +87,27 @@ func (c *zzhookConn) Write(p []byte) (int, error) {
 		c.s.hit(zzptWriting)
 	}
 	return c.zzclientConn.Write(p)
+}
+
+// Closing a real connection is not one indivisible step (it takes the descriptor's lock first):
+// the model connection has a scheduling point before it counts as closed, so that "shutdown
+// returned while a handler was still about to close its connection" is a schedule the engine
+// explores.
+func (c *zzhookConn) Close() error {
+	c.closeMu.Lock()
+	c.closeMu.Unlock()
+	return c.zzclientConn.Close()
+}
+
+type zzslowCloseConn struct {
+	*zzclientConn
+	closeMu sync.Mutex
+}
+
+func (c *zzslowCloseConn) Close() error {
+	c.closeMu.Lock()
+	c.closeMu.Unlock()
+	return c.zzclientConn.Close()
 }
 
 // VerifC07Handler: one connection, one or two exchanges, shutdown requested at
@@ -226,7 +249,7 @@ func VerifC07Serve() {
 			cc = zznewClientConn("client", false)
 		}
 		ccs = append(ccs, cc)
-		l.conns = append(l.conns, cc)
+		l.conns = append(l.conns, &zzslowCloseConn{zzclientConn: cc})
 	}
 	closeReturned := make(chan struct{})
 	if vf.Symbolic() {
@@ -270,3 +293,8 @@ func VerifC07Serve() {
 	}
 	vf.Reach("done")
 }
+
+// VerifC07ServeDeep: the same scenario with one connection and a larger preemption bound
+// (two more switches at non-blocking synchronisation points), which reaches "shutdown returns
+// between a handler's last two steps".
+func VerifC07ServeDeep() { VerifC07Serve() }
